@@ -675,6 +675,11 @@ func (c *wsConn) readFrame(ctx context.Context, r io.Reader) {
 	// use a autoResetReader in case the read takes a long time
 	buf, err := io.ReadAll(c.autoResetReader(r)) // todo buffer pool
 	if err != nil {
+		// mark the connection as unusable so that requests issued before the
+		// reconnect completes fail fast instead of being written to a dead conn
+		c.errLk.Lock()
+		c.incomingErr = err
+		c.errLk.Unlock()
 		c.readError <- xerrors.Errorf("reading frame into a buffer: %w", err)
 		return
 	}
